@@ -43,9 +43,13 @@ type pred struct {
 	reply []byte
 	impl  bool // reaches the implementation
 	hold  bool
+	dead  bool // negotiation class: at or behind the frame that exceeds the negotiated msize
 }
 
 func whoOf(m *ref9p.Msg) string {
+	if m.Type == ref9p.Tversion {
+		return "Tversion"
+	}
 	if m.Type == ref9p.Tflush {
 		return fmt.Sprintf("Tflush/%d/%d", m.Oldtag, m.Tag)
 	}
@@ -72,65 +76,15 @@ func buildStream(c *Case) (*built, error) {
 		return nil, fmt.Errorf("harness: bad server case")
 	}
 	b := &built{byTag: map[uint16]*pred{}}
-	walk := func(fid uint32, name string) {
-		b.prepWalk = append(b.prepWalk, &ref9p.Msg{Type: ref9p.Twalk, Fid: 0, Newfid: fid, Wname: []string{name}})
-	}
-	open := func(fid uint32, mode uint8) {
-		b.prepOpen = append(b.prepOpen, &ref9p.Msg{Type: ref9p.Topen, Fid: fid, Mode: mode})
-	}
 	var msgs []*ref9p.Msg
 	for i, f := range c.Frames {
-		fid := uint32(firstFid + 2*i)
-		tag := c.TagBase + uint16(i)
-		fname, dname := fmt.Sprintf("f%d", fid), fmt.Sprintf("d%d", fid)
-		var m *ref9p.Msg
-		switch f.Kind {
-		case "clunk":
-			walk(fid, fname)
-			m = &ref9p.Msg{Type: ref9p.Tclunk, Fid: fid}
-		case "remove":
-			walk(fid, fname)
-			m = &ref9p.Msg{Type: ref9p.Tremove, Fid: fid}
-		case "stat":
-			if !statFits(c.Msize, c.Dotu) {
-				return nil, fmt.Errorf("harness: Rstat does not fit msize %d", c.Msize)
-			}
-			walk(fid, fname)
-			m = &ref9p.Msg{Type: ref9p.Tstat, Fid: fid}
-		case "open":
-			walk(fid, fname)
-			m = &ref9p.Msg{Type: ref9p.Topen, Fid: fid, Mode: uint8(i % 3)}
-		case "walk":
-			walk(fid, fname)
-			m = &ref9p.Msg{Type: ref9p.Twalk, Fid: fid, Newfid: fid + 1}
-		case "read":
-			if f.N < 0 || f.N > int(c.Msize)-24 {
-				return nil, fmt.Errorf("harness: read count %d", f.N)
-			}
-			walk(fid, fname)
-			open(fid, 0)
-			m = &ref9p.Msg{Type: ref9p.Tread, Fid: fid, Offset: uint64(i)<<20 | 7, Count: uint32(f.N)}
-		case "write":
-			if f.N < 0 || f.N > int(c.Msize)-24 {
-				return nil, fmt.Errorf("harness: write count %d", f.N)
-			}
-			walk(fid, fname)
-			open(fid, 1)
-			m = &ref9p.Msg{Type: ref9p.Twrite, Fid: fid, Offset: uint64(i)<<20 | 5, Data: prf(c.Seed, "w", i, f.N)}
-		case "create":
-			if f.N < 1 || f.N > createFull(c.Msize, c.Dotu) {
-				return nil, fmt.Errorf("harness: create name length %d", f.N)
-			}
-			walk(fid, dname)
-			m = &ref9p.Msg{Type: ref9p.Tcreate, Fid: fid, Name: letters(hx.Mix(c.Seed, uint64(i)), f.N), Perm: 0o644, Mode: uint8(i % 3)}
-		case "flush":
-			m = &ref9p.Msg{Type: ref9p.Tflush, Oldtag: flushOld}
-		default:
-			return nil, fmt.Errorf("harness: unknown frame kind %q", f.Kind)
+		m, err := b.mkFrame(c, i, f)
+		if err != nil {
+			return nil, err
 		}
-		m.Tag = tag
 		msgs = append(msgs, m)
 	}
+	walk := b.walk
 	walk(fence2Fid, "ffence2")
 	// the stream always ends with the smallest valid request (9 bytes)
 	msgs = append(msgs, &ref9p.Msg{Type: ref9p.Tflush, Oldtag: flushOld, Tag: fenceTag})
@@ -175,15 +129,86 @@ func buildStream(c *Case) (*built, error) {
 	return b, nil
 }
 
+func (b *built) walk(fid uint32, name string) {
+	b.prepWalk = append(b.prepWalk, &ref9p.Msg{Type: ref9p.Twalk, Fid: 0, Newfid: fid, Wname: []string{name}})
+}
+
+func (b *built) open(fid uint32, mode uint8) {
+	b.prepOpen = append(b.prepOpen, &ref9p.Msg{Type: ref9p.Topen, Fid: fid, Mode: mode})
+}
+
+// mkFrame builds the i-th frame of a stream (fid firstFid+2i, tag TagBase+i)
+// and records the preparation its fid needs.
+func (b *built) mkFrame(c *Case, i int, f Frame) (*ref9p.Msg, error) {
+	walk, open := b.walk, b.open
+	fid := uint32(firstFid + 2*i)
+	tag := c.TagBase + uint16(i)
+	fname, dname := fmt.Sprintf("f%d", fid), fmt.Sprintf("d%d", fid)
+	var m *ref9p.Msg
+	switch f.Kind {
+	case "clunk":
+		walk(fid, fname)
+		m = &ref9p.Msg{Type: ref9p.Tclunk, Fid: fid}
+	case "remove":
+		walk(fid, fname)
+		m = &ref9p.Msg{Type: ref9p.Tremove, Fid: fid}
+	case "stat":
+		if !statFits(c.Msize, c.Dotu) {
+			return nil, fmt.Errorf("harness: Rstat does not fit msize %d", c.Msize)
+		}
+		walk(fid, fname)
+		m = &ref9p.Msg{Type: ref9p.Tstat, Fid: fid}
+	case "open":
+		walk(fid, fname)
+		m = &ref9p.Msg{Type: ref9p.Topen, Fid: fid, Mode: uint8(i % 3)}
+	case "walk":
+		walk(fid, fname)
+		m = &ref9p.Msg{Type: ref9p.Twalk, Fid: fid, Newfid: fid + 1}
+	case "read":
+		if f.N < 0 || f.N > int(c.Msize)-24 {
+			return nil, fmt.Errorf("harness: read count %d", f.N)
+		}
+		walk(fid, fname)
+		open(fid, 0)
+		m = &ref9p.Msg{Type: ref9p.Tread, Fid: fid, Offset: uint64(i)<<20 | 7, Count: uint32(f.N)}
+	case "write":
+		if f.N < 0 || f.N > int(c.Msize)-24 {
+			return nil, fmt.Errorf("harness: write count %d", f.N)
+		}
+		walk(fid, fname)
+		open(fid, 1)
+		m = &ref9p.Msg{Type: ref9p.Twrite, Fid: fid, Offset: uint64(i)<<20 | 5, Data: prf(c.Seed, "w", i, f.N)}
+	case "create":
+		if f.N < 1 || f.N > createFull(c.Msize, c.Dotu) {
+			return nil, fmt.Errorf("harness: create name length %d", f.N)
+		}
+		walk(fid, dname)
+		m = &ref9p.Msg{Type: ref9p.Tcreate, Fid: fid, Name: letters(hx.Mix(c.Seed, uint64(i)), f.N), Perm: 0o644, Mode: uint8(i % 3)}
+	case "flush":
+		m = &ref9p.Msg{Type: ref9p.Tflush, Oldtag: flushOld}
+	default:
+		return nil, fmt.Errorf("harness: unknown frame kind %q", f.Kind)
+	}
+	m.Tag = tag
+	return m, nil
+}
+
 // obs is what one delivery of the stream produced.
 type obs struct {
 	replies  map[uint16][]byte
 	enter    map[uint16]*ref9p.Msg // request as handed to the implementation
 	answer   map[uint16]*ref9p.Msg // request as it looked when the implementation answered
 	dispatch []string
+	// negotiation class only
+	lossy  bool // the server hangs up: queued replies may be lost
+	forced bool // the close could not be delayed until every dispatched request had started
+	hungup bool
 }
 
 func diffObs(a, b *obs) string {
+	if a.lossy || b.lossy {
+		return diffNego(a, b)
+	}
 	if len(a.replies) != len(b.replies) {
 		return fmt.Sprintf("%d replies, reference %d", len(b.replies), len(a.replies))
 	}
@@ -227,17 +252,31 @@ type hookLog struct {
 	mu       sync.Mutex
 	dispatch []string
 	points   atomic.Int64
+	// negotiation class: the run's connection, a callback that delays its
+	// close (called in the receive goroutine at close.enter) and whether
+	// close has finished
+	conn      atomic.Pointer[go9p.Conn]
+	holdClose func()
+	closed    atomic.Bool
 }
 
 func (h *hookLog) hook(point string, obj interface{}) {
 	h.points.Add(1)
-	if point != "recv.dispatch" {
-		return
+	switch point {
+	case "recv.dispatch":
+		who := sched.Who(obj)
+		h.mu.Lock()
+		h.dispatch = append(h.dispatch, who)
+		h.mu.Unlock()
+	case "close.enter":
+		if c, ok := obj.(*go9p.Conn); ok && c != nil && c == h.conn.Load() && h.holdClose != nil {
+			h.holdClose()
+		}
+	case "close.exit":
+		if c, ok := obj.(*go9p.Conn); ok && c != nil && c == h.conn.Load() {
+			h.closed.Store(true)
+		}
 	}
-	who := sched.Who(obj)
-	h.mu.Lock()
-	h.dispatch = append(h.dispatch, who)
-	h.mu.Unlock()
 }
 
 func (h *hookLog) install() func() {
